@@ -1,7 +1,8 @@
 (* The reference: mathematical finite sets, as duplicate-free lists read up to order, and the
    set-theoretic meaning of every mapset operation on them.  No nil, no sizes, no early exits, no
    iteration orders (except the two places where the property itself speaks of a choice: which
-   member Pop removes, and the order in which Slice/Append list the members).  The lemmas at the
+   member Pop removes, and the order in which Slice/Append list the members), no addresses.
+   The only panic of the package on any input is Range applied to the nil function.  The lemmas at the
    end of MapsetProofs.v ([s_adds_In] …) say in terms of membership what each function means. *)
 From Coq Require Import ZArith List Bool.
 Import ListNotations.
@@ -35,7 +36,8 @@ Inductive sout : Type :=
 | SInt (z : Z)
 | SElem (x : T)
 | SList (prefix : list T) (A : rset)    (* the prefix followed by each member of A exactly once, in some order *)
-| SBadChoice.                           (* the element said to have been popped is not a member *)
+| SBadChoice                            (* the element said to have been popped is not a member *)
+| SPanicNilFunc.                        (* Range of the nil iterator function: the call of a nil function panics *)
 
 Definition sstore := nat -> rset.
 Definition sstore0 : sstore := fun _ => [].
@@ -62,7 +64,8 @@ Definition sstep (st : sstore) (o : op T) : sstore * sout :=
   | OClear _ i => sassign st i []
   | OClone _ i j => sassign st i (st j)
   | OIntersect _ i js _ => sassign st i (s_inter_all (map st js))
-  | ORange _ i items => sassign st i (s_adds [] items)
+  | ORange _ i (Some items) => sassign st i (s_adds [] items)
+  | ORange _ i None => (st, SPanicNilFunc)
   | OKeys _ i keys => sassign st i (s_adds [] keys)
   | OValues _ i vals => sassign st i (s_adds [] vals)
   | OHas _ i x => (st, SBool (s_mem x (st i)))
